@@ -10,7 +10,7 @@ EXPLANATION = ('Munkres.compute / pad_matrix / make_cost_matrix from /repo are e
                'that path (ties included). Counterexamples are replayed concretely before being reported.')
 ASSUMPTIONS = ['entries are finite reals in [0, 10^6] (ints and floats alike); entries above sys.maxsize are outside the claim',
                'DISALLOWED entries are not used by the library and are outside the claim']
-BOUNDS = {'quick': 'all shapes r,c <= 3 with real entries (exhaustive over paths); every 4x4 matrix over {0,1}; inductive steps 1 (n<=4) and 6 (n<=3) from arbitrary states; solver reuse: a concrete first solve followed by a symbolic 2x3/3x2 solve',
+BOUNDS = {'quick': 'all shapes r,c <= 3 with real entries (exhaustive over paths), with the Hungarian invariants monitored after every step; every 4x4 matrix over {0,1}; inductive steps 1 (n<=4) and 6 (n<=3) from arbitrary states; solver reuse: a concrete first solve followed by a symbolic 2x3/3x2 solve',
           'thorough': 'r,c <= 3 plus 3x4, 4x3, 2x4, 4x2, 2x5, 5x2, 4x4 (path budget per shape; exhaustive flag per harness)'}
 OUTSIDE = ['IEEE rounding of reduced costs', 'entries > sys.maxsize', 'DISALLOWED entries', 'shapes beyond the bounds']
 DEADLINE = {'quick': 150, 'thorough': 2400}
@@ -82,6 +82,42 @@ def h_profit(E, n):
     return [list(p) for p in res]
 
 
+def h_invariants(E, r, c, hi):
+    """the Hungarian invariants monitored after EVERY step of a complete run: reduced costs stay >= 0, stars sit on zeros and are independent,
+    and step 5 leaves neither primes nor covers behind"""
+    from mitxgraders.helpers.munkres import Munkres
+    M = Munkres()
+    names = ['_Munkres__step%d' % k for k in range(1, 7)]
+    if not all(hasattr(M, a) for a in names):
+        E.check('skipped-internals-renamed', True)
+        return 'skipped'
+    m = [[(E.int('m%d_%d' % (i, j), 0, hi) if hi else E.real('m%d_%d' % (i, j), 0, 10 ** 6)) for j in range(c)] for i in range(r)]
+    trace = []
+
+    def wrap(k, f):
+        def g():
+            nxt = f()
+            n = M.n
+            conds = [near_le(0, M.C[i][j]) for i in range(n) for j in range(n)]
+            struct = True
+            if k >= 2:
+                stars = [(i, j) for i in range(n) for j in range(n) if M.marked[i][j] == 1]
+                conds += [near_eq(M.C[i][j], 0) for i, j in stars]
+                struct = len({i for i, _ in stars}) == len(stars) == len({j for _, j in stars})
+            if k == 5:
+                struct = struct and not any(M.marked[i][j] == 2 for i in range(n) for j in range(n)) and not any(M.row_covered) and not any(M.col_covered)
+            E.check('hungarian-invariants-after-step-%d' % k, sand(struct, *conds))
+            trace.append(k)
+            return nxt
+        return g
+    for k, a in enumerate(names, 1):
+        setattr(M, a, wrap(k, getattr(M, a)))
+    orig = [row[:] for row in m]
+    res = M.compute(m)
+    _check_result(E, '', orig, m, res, r, c)
+    return [list(p) for p in res]
+
+
 def h_step6(E, n):
     """inductive step: from ANY state in which step 6 can be entered (C >= 0, no uncovered zero, some uncovered cell) the real
     __step6 performs a dual transformation: C'[i][j] = C[i][j] + [row i covered]*d - [col j uncovered]*d with d the smallest
@@ -143,7 +179,9 @@ def harnesses(tier):
     for first, r, c in [('sq3', 2, 3), ('wide', 3, 2), ('tall', 2, 2)]:
         hs.append(Harness(pname('reuse', first=first, r=r, c=c), h_reuse, (first, r, c), FUNCS, 'concrete first solve then symbolic %dx%d' % (r, c)))
     hs.append(Harness(pname('profit', n=2), h_profit, (2,), FUNCS, 'grades in [0,1], 2x2'))
-    hs.append(Harness(pname('munkres01', r=4, c=4), h_munkres_int, (4, 4, 1), FUNCS, 'every 4x4 matrix over {0,1} (symbolic integers)'))
+    for r, c in [(2, 3), (3, 3)]:
+        hs.append(Harness(pname('invariants', r=r, c=c), h_invariants, (r, c, 0), FUNCS, 'real entries; invariants after every step', validate=False))
+    hs.append(Harness(pname('invariants01', r=4, c=4), h_invariants, (4, 4, 1), FUNCS, 'every 4x4 matrix over {0,1} (symbolic integers): optimal result and invariants after every step'))
     for n in (2, 3):
         hs.append(Harness(pname('step6', n=n), h_step6, (n,), ['Munkres.__step6', 'Munkres.__find_smallest'],
                           'arbitrary pre-state: n=%d, any cover pattern with an uncovered cell, any C>=0 without uncovered zeros' % n))
